@@ -15,7 +15,7 @@ CHECKS = {
         "Exhaustive enumeration of both 8-bit status families (256 values each, built by constructor "
         "and by deserialisation) and of every defined unified status, plus Hypothesis-generated undefined "
         "32-bit values and all 256 values of the four other types that response schemas deliver in a `status` field "
-        "(never OK, never raising), against a hand-written numeric oracle (totality, identity on unified statuses, "
+        "(never OK, never raising) and the steering codes fed off the wire through every version's handler helpers, against a hand-written numeric oracle (totality, identity on unified statuses, "
         "OK iff success, steering codes by number). The space the property names is finite and fully covered.",
         "Numeric codes in the oracle are transcribed by hand from Silicon Labs headers; zigpy's enum machinery is trusted.",
         "exhaustive enumeration + Hypothesis value generation against a hand-written table oracle",
